@@ -20,10 +20,39 @@ def norm_self(t):
         return tuple(norm_self(x) for x in t)
     return t
 
+_establishing = []
+
+def idset_member_range(C):
+    """The invariant of the in-use set's members that C05's allocator rules establish (every member is in 1..=i32::MAX: see
+    props/C05.py, J), as the interpreter's `member_range` hook - so that every rule reading an arm's paths sees a `retain` on the
+    set as the removals it amounts to, also when its predicate tests magnitudes (`|&x| x != id && x > 0` releases `id` and nothing
+    else).  Asked for only when the loop has such a retain; None when C05's obligations for J do not all hold (nothing is assumed
+    then).  Computed once per Conn."""
+    if not hasattr(C, '_idset_range'):
+        C._idset_range = None
+        from facts import callee_of
+        if not _establishing and any(n['k'] == 'MethodCall' and (callee_of(n) or '').endswith('::retain') and C.is_idset_place(n['recv']) for n, _c in walk(C.loop.root)):
+            import importlib, engine
+            _establishing.append(C)
+            try:
+                sub = engine.Ctx('C05', C.facts, None)
+                importlib.import_module('props.C05').run(sub)
+                C._idset_range = getattr(sub, 'idset_member_range', None)
+            except Exception:
+                C._idset_range = None       # J not established: nothing is assumed about the members (a magnitude test stays undecided)
+            finally:
+                _establishing.pop()
+    rng = C._idset_range
+    if rng is None:
+        return None
+    return lambda node: rng if node.get('k') == 'MethodCall' and C.is_idset_place(node['recv']) else None
+
 def arm_paths(C, role, field_hook=None, **kw):
     f = C.facts
     L = C.loop
     arm = C.arms[role]
+    if 'member_range' not in kw:
+        kw['member_range'] = idset_member_range(C)
     I = absx.Interp(f, L, field_hook=field_hook, result_combinators=True, **kw)
     env = I.param_env()
     # the coroutine rebinding `let self = self;`
